@@ -190,7 +190,7 @@ theorem Sim.allGoals_le (img : Image) (R : List (String × Sem.Routine)) (hR : R
         fun r => loop_step f (ih.whileI r) (ih.countI r),
         fun r => while_step f (ih.block r) (ih.whileI r),
         fun r => count_step f (ih.block r) (ih.countI r),
-        fun r st => stmts_ret_step f (ih.blockR r st) (ih.operandsR r st) (ih.loopR r st) r st rfl,
+        fun r st => stmts_ret_step f (ih.blockR r st) (ih.operandsR r st) (ih.loopR r st) r st.1 st.2 rfl,
         fun r st => block_ret_step f (ih.stmts _) (ih.stmtsR r st) (ih.blockR r st),
         fun r st => operand_ret_step f (ih.blockR r st),
         fun r st => operands_ret_step f (ih.operand _) (ih.operandR r st) (ih.operandsR r st),
@@ -209,7 +209,7 @@ block ends normally, the machine arrives just past the code; if the source says 
 machine arrives at `exit`; in both cases in a state related to the source-level state. -/
 theorem C01_gen_sim_block (img : Image) (K : Ctx) (hR : RoutinesAt img K.routines) (b : Block)
     (hb : FragBlock b) (f : Nat) (σ σ' : S)
-    (o : Outcome) (s : State) (pc exit : Nat) (stk : List Frame)
+    (o : Outcome) (s : State) (pc exit : Nat) (stk : Stk)
     (hsim : Sim K stk σ s) (hpc : s.pc = (pc : Int))
     (hc : CodeAt img pc (resolve (genBlock b) pc exit))
     (h : execBlock f b σ = (o, σ')) (ho : o = .normal ∨ o = .brk) :
@@ -221,7 +221,7 @@ theorem C01_gen_sim_block (img : Image) (K : Ctx) (hR : RoutinesAt img K.routine
 /-- the same for a single statement -/
 theorem C01_gen_sim_stmt (img : Image) (K : Ctx) (hR : RoutinesAt img K.routines) (st : Stmt)
     (hst : FragStmt st) (f : Nat) (σ σ' : S)
-    (o : Outcome) (s : State) (pc exit : Nat) (stk : List Frame)
+    (o : Outcome) (s : State) (pc exit : Nat) (stk : Stk)
     (hsim : Sim K stk σ s) (hpc : s.pc = (pc : Int))
     (hc : CodeAt img pc (resolve (genStmt st) pc exit))
     (h : execStmt f st σ = (o, σ')) (ho : o = .normal ∨ o = .brk) :
@@ -235,20 +235,20 @@ theorem C01_gen_sim_stmt (img : Image) (K : Ctx) (hR : RoutinesAt img K.routines
 matrix bodies — the machine arrives one past the return address with exactly the caller's frames
 left, and everything else as the source says (`Sim.RetPost`). -/
 theorem C01_gen_sim_return (img : Image) (K : Ctx) (hR : RoutinesAt img K.routines) (ret : Nat)
-    (rest : List Frame) (hK : K.ret = some (ret, rest)) (b : Block) (hb : FragBlock b) (f : Nat)
-    (σ σ' : S) (s : State) (pc exit : Nat) (stk : List Frame)
+    (rest : List Frame) (evc : List Val) (hK : K.ret = some (ret, rest, evc)) (b : Block) (hb : FragBlock b)
+    (f : Nat) (σ σ' : S) (s : State) (pc exit : Nat) (stk : Stk)
     (hsim : Sim K stk σ s) (hpc : s.pc = (pc : Int))
     (hc : CodeAt img pc (resolve (genBlock b) pc exit)) (h : execBlock f b σ = (.ret, σ')) :
     ∃ k, RetPost K σ' (run img k s) ∧ (run img k s).pc = ((ret + 1 : Nat) : Int) ∧
-      (run img k s).stack = rest := by
+      (run img k s).stack = rest ∧ (run img k s).eval = evc := by
   obtain ⟨Kr, KR⟩ := K
   simp only at hK
   subst hK
-  obtain ⟨k, hk⟩ := (Sim.allGoals img KR hR f).blockR ret rest b hb σ σ' s pc exit stk hsim hpc hc h
-  obtain ⟨r', rest', hK', hpc', hst'⟩ := hk.ctx
+  obtain ⟨k, hk⟩ := (Sim.allGoals img KR hR f).blockR ret (rest, evc) b hb σ σ' s pc exit stk hsim hpc hc h
+  obtain ⟨r', rest', evc', hK', hpc', hst'⟩ := hk.ctx
   simp only [Option.some.injEq, Prod.mk.injEq] at hK'
-  obtain ⟨rfl, rfl⟩ := hK'
-  exact ⟨k, hk, hpc', hst'⟩
+  obtain ⟨rfl, rfl, rfl⟩ := hK'
+  exact ⟨k, hk, hpc', hst', hk.eval⟩
 
 /-- **gen_sim_partial.**  For every statement list `b` of the fragment whose code `code` has no
 unresolved `break` (`Gen.genProgram b = some code`), every fuel, every source-level state `σ`
@@ -262,12 +262,12 @@ says, in the same order, and leaves every variable, macro and register (but the 
 theorem C01_gen_sim_partial (img : Image) (R : List (String × Sem.Routine)) (hR : RoutinesAt img R)
     (b : Block) (hb : FragBlock b) (code : List Instr)
     (hcode : Gen.genProgram b = some code) (f : Nat) (σ σ' : S) (s : State) (pc : Nat)
-    (hsim : Sim ⟨none, R⟩ [] σ s) (hpc : s.pc = (pc : Int)) (hc : CodeAt img pc code)
+    (hsim : Sim ⟨none, R⟩ {} σ s) (hpc : s.pc = (pc : Int)) (hc : CodeAt img pc code)
     (h : execBlock f b σ = (.normal, σ')) :
-    ∃ k, (run img k s).pc = ((pc + code.length : Nat) : Int) ∧ Sim ⟨none, R⟩ [] σ' (run img k s) := by
+    ∃ k, (run img k s).pc = ((pc + code.length : Nat) : Int) ∧ Sim ⟨none, R⟩ {} σ' (run img k s) := by
   have hres : resolve (genBlock b) pc (0 : Nat) = code := resolve_of_mapM _ _ hcode pc _
   have hlen : code.length = (genBlock b).length := by rw [← hres, resolve_length]
-  obtain ⟨k, hk1, hk2⟩ := C01_gen_sim_block img ⟨none, R⟩ hR b hb f σ σ' .normal s pc 0 [] hsim hpc
+  obtain ⟨k, hk1, hk2⟩ := C01_gen_sim_block img ⟨none, R⟩ hR b hb f σ σ' .normal s pc 0 {} hsim hpc
     (by rw [hres]; exact hc) h (Or.inl rfl)
   exact ⟨k, by rw [hk1, hlen]; rfl, hk2⟩
 
@@ -278,7 +278,7 @@ macros, lights and all registers other than `result`. -/
 theorem C01_once_each_in_order (img : Image) (R : List (String × Sem.Routine)) (hR : RoutinesAt img R)
     (b : Block) (hb : FragBlock b) (code : List Instr)
     (hcode : Gen.genProgram b = some code) (f : Nat) (σ σ' : S) (s : State) (pc : Nat)
-    (hsim : Sim ⟨none, R⟩ [] σ s) (hpc : s.pc = (pc : Int)) (hc : CodeAt img pc code)
+    (hsim : Sim ⟨none, R⟩ {} σ s) (hpc : s.pc = (pc : Int)) (hc : CodeAt img pc code)
     (h : execBlock f b σ = (.normal, σ')) :
     ∃ k, (run img k s).trace = σ'.vm.trace ∧ (run img k s).globals = σ'.vm.globals ∧
       (run img k s).constants = σ'.vm.constants ∧ (run img k s).lights = σ'.vm.lights ∧
@@ -290,8 +290,9 @@ theorem C01_once_each_in_order (img : Image) (R : List (String × Sem.Routine)) 
 
 /-- the initial states of `Sem.run` and of the machine are related -/
 theorem Sim.init (lights : List Light) (rts : List (String × Sem.Routine)) :
-    Sim ⟨none, rts⟩ [] { vm := Vm.init lights, routines := rts } (Vm.init lights) :=
-  ⟨rfl, rfl, LoopsOnly.nil, rfl, rfl, ⟨rfl, rfl⟩, rfl, ⟨.logical, rfl⟩, rfl, rfl, rfl, rfl, rfl, rfl, rfl, fun _ _ => rfl⟩
+    Sim ⟨none, rts⟩ {} { vm := Vm.init lights, routines := rts } (Vm.init lights) :=
+  ⟨rfl, rfl, LoopsOnly.nil, rfl, EvOk.nil, rfl, ⟨rfl, rfl⟩, rfl, ⟨⟨.logical, rfl⟩, rfl⟩, rfl, rfl, rfl, rfl, rfl, rfl, rfl,
+    fun _ _ => rfl⟩
 
 /-- **whole scripts.**  A script of the fragment, compiled by `Gen.genProgram` and placed at
 address 0 of an image that ends with it: if the source-level run (`Sem.run`) ends normally, the
@@ -766,9 +767,10 @@ example : ∃ k, (run callImg k { Vm.init [] with pc := 52 }).trace =
       mainCode [] [("down", 2)]
     have hl : downCode.length = 49 := rfl
     simpa [callImg, hl] using this
-  have hsim : Sim ⟨none, callRoutines⟩ [] { vm := Vm.init [], routines := callRoutines }
+  have hsim : Sim ⟨none, callRoutines⟩ {} { vm := Vm.init [], routines := callRoutines }
       { Vm.init [] with pc := 52 } :=
-    ⟨rfl, rfl, LoopsOnly.nil, rfl, rfl, ⟨rfl, rfl⟩, rfl, ⟨.logical, rfl⟩, rfl, rfl, rfl, rfl, rfl, rfl, rfl, fun _ _ => rfl⟩
+    ⟨rfl, rfl, LoopsOnly.nil, rfl, EvOk.nil, rfl, ⟨rfl, rfl⟩, rfl, ⟨⟨.logical, rfl⟩, rfl⟩, rfl, rfl, rfl, rfl, rfl, rfl, rfl,
+    fun _ _ => rfl⟩
   obtain ⟨k, hk, _⟩ := C01_once_each_in_order callImg callRoutines callImg_routines mainBlock
     mainBlock_frag mainCode mainBlock_code 200 _ _ _ 52 hsim rfl hc (eq_of_fst mainBlock_sem)
   exact ⟨k, hk⟩
